@@ -143,7 +143,7 @@ def gen_cases(ctx):
 
 
 def run(ctx):
-    cw.standard_check(ctx, gen_cases(ctx), PROP, KINDS, "runner.stop", monitor_with_ops(ctx))
+    cw.standard_check(ctx, cw.corpus_cases(PROP) + gen_cases(ctx), PROP, KINDS, "runner.stop", monitor_with_ops(ctx))
 
 
 def replay(ctx, obj):
